@@ -57,8 +57,10 @@ Lemma set_fold_alter_lookup (f : ninfo → ninfo) (ρ : string → string) `{!In
     if decide (k ∈ (set_map ρ S : gset string)) then f <$> g !! k else g !! k.
 Proof.
   revert k.
-  apply (set_fold_ind_L (λ (r : circuit) (X : gset string),
-    ∀ k, r !! k = if decide (k ∈ (set_map ρ X : gset string)) then f <$> g !! k else g !! k)).
+  set (P := λ (r : circuit) (X : gset string),
+    ∀ k, r !! k = if decide (k ∈ (set_map ρ X : gset string)) then f <$> g !! k else g !! k).
+  change (P (set_fold (λ n g, alter f (ρ n) g) g S) S).
+  apply (set_fold_ind_L P); unfold P; clear P.
   - intros k. rewrite set_map_empty. by rewrite decide_False by set_solver.
   - intros x X r Hx IH k.
     assert (Hnot : ρ x ∉ (set_map ρ X : gset string)).
@@ -80,3 +82,187 @@ Proof.
   - by rewrite kmap_empty, (left_id_L ∅ (∪)).
   - intros i x m r Hi ->. rewrite kmap_insert by apply _. by rewrite insert_union_l.
 Qed.
+
+(* ---------- 4. the spliced graph before the connections ---------- *)
+Lemma elem_of_set_map_inj (ρ : string → string) `{!Inj (=) (=) ρ} (X : gset string) n :
+  ρ n ∈ (set_map ρ X : gset string) ↔ n ∈ X.
+Proof.
+  rewrite elem_of_map. split; [|by eauto].
+  intros (y & Hy & Hin). apply (inj ρ) in Hy. by subst.
+Qed.
+
+Lemma spliced_graph P SC name :
+  (∀ n, n ∈ dom (c_g SC) → pre name n ∉ dom (c_g P)) →
+  let g0 := update_g (c_g P) (rename_g (pre name) (c_g SC)) in
+  let g1 := set_fold (λ n g, alter (retype Buf) (pre name n) g) g0 (inputs (c_g SC)) in
+  set_fold (λ n g, alter unmark (pre name n) g) g1 (outputs (c_g SC))
+  = c_g P ∪ rename (pre name) (strip_io (c_g SC)).
+Proof.
+  intros Hfresh g0 g1.
+  assert (Hg0 : g0 = c_g P ∪ rename (pre name) (c_g SC)).
+  { unfold g0. rewrite rename_g_eq. apply update_g_disjoint.
+    rewrite dom_rename by apply _. intros k Hk (n & -> & Hn)%elem_of_map. by apply (Hfresh n). }
+  apply map_eq. intros k.
+  rewrite set_fold_alter_lookup by apply _. unfold g1.
+  rewrite set_fold_alter_lookup by apply _. rewrite Hg0. clear g0 g1 Hg0.
+  destruct (c_g P !! k) as [i|] eqn:HP.
+  - (* a parent node: not a renamed child name *)
+    assert (Hk : ∀ X : gset string, X ⊆ dom (c_g SC) → k ∉ (set_map (pre name) X : gset string)).
+    { intros X HX (n & -> & Hn)%elem_of_map. apply (Hfresh n); [by apply HX|]. apply elem_of_dom. eauto. }
+    assert (Hin : inputs (c_g SC) ⊆ dom (c_g SC)).
+    { intros n (j & Hj & _)%elem_of_inputs. apply elem_of_dom. eauto. }
+    assert (Hout : outputs (c_g SC) ⊆ dom (c_g SC)).
+    { intros n (j & Hj & _)%elem_of_outputs. apply elem_of_dom. eauto. }
+    rewrite (decide_False _ _ (Hk _ Hout)), (decide_False _ _ (Hk _ Hin)).
+    rewrite (lookup_union_Some_l _ _ _ _ HP). symmetry. by apply lookup_union_Some_l.
+  - rewrite !lookup_union_r by done.
+    destruct (rename (pre name) (c_g SC) !! k) as [j|] eqn:Hr.
+    + apply lookup_rename_Some in Hr as (n & i & -> & Hn & ->); [|apply _].
+      rewrite lookup_rename by apply _. unfold strip_io. rewrite lookup_fmap, Hn. simpl.
+      destruct i as [t o fi].
+      destruct (decide (pre name n ∈ (set_map (pre name) (outputs (c_g SC)) : gset string))) as [Ho|Ho];
+      destruct (decide (pre name n ∈ (set_map (pre name) (inputs (c_g SC)) : gset string))) as [Hi|Hi];
+        rewrite elem_of_set_map_inj in Ho, Hi by apply _; simpl; f_equal;
+        unfold ren_info, strip_info, retype, unmark, set_out; simpl.
+      * apply elem_of_inputs in Hi as (i' & Hi' & Hty). rewrite Hn in Hi'. simplify_eq/=. done.
+      * assert (t ≠ Input). { intros ->. apply Hi, elem_of_inputs. eauto. }
+        by rewrite bool_decide_eq_false_2.
+      * apply elem_of_inputs in Hi as (i' & Hi' & Hty). rewrite Hn in Hi'. simplify_eq/=.
+        destruct o; [|done]. exfalso. apply Ho, elem_of_outputs. eauto.
+      * assert (t ≠ Input). { intros ->. apply Hi, elem_of_inputs. eauto. }
+        rewrite bool_decide_eq_false_2 by done.
+        destruct o; [|done]. exfalso. apply Ho, elem_of_outputs. eauto.
+    + (* not a name of the spliced copy at all *)
+      assert (Hnone : rename (pre name) (strip_io (c_g SC)) !! k = None).
+      { destruct (rename (pre name) (strip_io (c_g SC)) !! k) as [j|] eqn:Hs; [|done].
+        apply lookup_rename_Some in Hs as (n & i & -> & Hn & _); [|apply _].
+        rewrite lookup_rename in Hr by apply _. unfold strip_io in Hn. rewrite lookup_fmap in Hn.
+        destruct (c_g SC !! n); simplify_eq/=. }
+      rewrite Hnone. by repeat case_decide.
+Qed.
+
+(* ---------- 5. driving a (nearly) free buffer ---------- *)
+Lemma gate_val_buf_singleton t (v : val) u : t = Buf ∨ t = BbIn → gate_val t v {[u]} = v u.
+Proof.
+  intros Ht. unfold gate_val. rewrite elements_singleton. simpl.
+  destruct Ht as [-> | ->]; simpl; by destruct (v u).
+Qed.
+
+Lemma drive_node c u x i v :
+  c !! x = Some i → (n_ty i = Buf ∨ n_ty i = BbIn) → n_fi i ⊆ {[u]} →
+  consistent (add_edge c u x) v ↔ consistent c v ∧ v x = v u.
+Proof.
+  intros Hx Hty Hfi. unfold add_edge.
+  set (i' := upd_fi (λ s, {[u]} ∪ s) i).
+  assert (Hfi' : n_fi i' = {[u]}).
+  { unfold i', upd_fi. simpl. apply set_eq. intros z. set_solver. }
+  assert (Hok' : node_ok v x i' ↔ v x = v u).
+  { unfold node_ok, is_free. unfold i' at 1 2. cbn [upd_fi n_ty].
+    assert (bool_decide (n_fi i' = ∅) = false) as Hne.
+    { apply bool_decide_eq_false. rewrite Hfi'. intros He. apply (f_equal (λ s, u ∈ s)) in He.
+      assert (u ∈ (∅ : gset string)) as Hu by (rewrite <- He; set_solver). set_solver. }
+    destruct Hty as [Ht|Ht]; rewrite Ht, Hne, Hfi'; rewrite gate_val_buf_singleton by auto; done. }
+  assert (Hok : v x = v u → node_ok v x i).
+  { intros Hv. unfold node_ok, is_free.
+    destruct (decide (n_fi i = ∅)) as [He|He].
+    - destruct Hty as [Ht|Ht]; rewrite Ht, bool_decide_eq_true_2 by done; done.
+    - assert (n_fi i = {[u]}) as Hs.
+      { apply set_eq. intros z. split; [by apply Hfi|]. intros ->%elem_of_singleton.
+        destruct (decide (u ∈ n_fi i)) as [|Hn]; [done|]. exfalso. apply He.
+        apply set_eq. intros z. split; [|set_solver]. intros Hz. pose proof (Hfi z Hz) as ->%elem_of_singleton. done. }
+      destruct Hty as [Ht|Ht]; rewrite Ht, bool_decide_eq_false_2 by done;
+        rewrite Hs, gate_val_buf_singleton by auto; done. }
+  unfold consistent. split.
+  - intros H. assert (v x = v u) as Hv.
+    { apply Hok'. apply H. by rewrite lookup_alter, Hx. }
+    split; [|done]. intros n j Hn. destruct (decide (n = x)) as [->|Hne].
+    + rewrite Hx in Hn. simplify_eq. by apply Hok.
+    + apply H. by rewrite lookup_alter_ne.
+  - intros [H Hv] n j Hn. destruct (decide (n = x)) as [->|Hne].
+    + rewrite lookup_alter, Hx in Hn. simpl in Hn. simplify_eq. by apply Hok'.
+    + rewrite lookup_alter_ne in Hn by done. by apply H.
+Qed.
+
+(* ---------- 6. connections keep types, output marks and the domain ---------- *)
+Definition shape (i : ninfo) : gtype * bool := (n_ty i, n_out i).
+Definition same_shape (c c' : circuit) : Prop := ∀ n, shape <$> c !! n = shape <$> c' !! n.
+
+Lemma same_shape_refl c : same_shape c c. Proof. done. Qed.
+Lemma same_shape_trans c1 c2 c3 : same_shape c1 c2 → same_shape c2 c3 → same_shape c1 c3.
+Proof. intros H1 H2 n. by rewrite H1. Qed.
+Lemma same_shape_sym c1 c2 : same_shape c1 c2 → same_shape c2 c1.
+Proof. intros H n. by rewrite H. Qed.
+
+Lemma same_shape_lookup c c' n i : same_shape c c' → c !! n = Some i →
+  ∃ i', c' !! n = Some i' ∧ n_ty i' = n_ty i ∧ n_out i' = n_out i.
+Proof.
+  intros H Hn. specialize (H n). rewrite Hn in H. simpl in H.
+  destruct (c' !! n) as [i'|]; simplify_eq/=. unfold shape in H. simplify_eq. eauto.
+Qed.
+Lemma same_shape_ty c c' n : same_shape c c' → ty c n = ty c' n.
+Proof.
+  intros H. unfold ty. specialize (H n).
+  destruct (c !! n) as [i|], (c' !! n) as [i'|]; simplify_eq/=; try done.
+  unfold shape in H. by simplify_eq.
+Qed.
+Lemma same_shape_dom c c' : same_shape c c' → dom c = dom c'.
+Proof.
+  intros H. apply set_eq. intros n. rewrite !elem_of_dom. specialize (H n).
+  destruct (c !! n), (c' !! n); simplify_eq/=; split; intros [? ?]; eauto; done.
+Qed.
+Lemma same_shape_inputs c c' : same_shape c c' → inputs c = inputs c'.
+Proof.
+  intros H. apply set_eq. intros n. rewrite !elem_of_inputs. split.
+  - intros (i & Hi & Ht). destruct (same_shape_lookup _ _ _ _ H Hi) as (i' & ? & ? & ?). exists i'. split; congruence.
+  - intros (i & Hi & Ht). destruct (same_shape_lookup _ _ _ _ (same_shape_sym _ _ H) Hi) as (i' & ? & ? & ?).
+    exists i'. split; congruence.
+Qed.
+Lemma same_shape_outputs c c' : same_shape c c' → outputs c = outputs c'.
+Proof.
+  intros H. apply set_eq. intros n. rewrite !elem_of_outputs. split.
+  - intros (i & Hi & Ht). destruct (same_shape_lookup _ _ _ _ H Hi) as (i' & ? & ? & ?). exists i'. split; congruence.
+  - intros (i & Hi & Ht). destruct (same_shape_lookup _ _ _ _ (same_shape_sym _ _ H) Hi) as (i' & ? & ? & ?).
+    exists i'. split; congruence.
+Qed.
+
+Lemma add_edge_shape c u x : same_shape (add_edge c u x) c.
+Proof.
+  intros n. unfold add_edge. destruct (decide (n = x)) as [->|Hne].
+  - rewrite lookup_alter. by destruct (c !! x).
+  - by rewrite lookup_alter_ne.
+Qed.
+Lemma add_edges_shape l c : same_shape (foldl (λ c' (p : string * string), add_edge c' p.1 p.2) c l) c.
+Proof.
+  revert c. induction l as [|p l IH]; intros c; simpl; [done|].
+  eapply same_shape_trans; [apply IH|apply add_edge_shape].
+Qed.
+Lemma connect_g_shape c us vs : same_shape (connect_g c us vs).1 c.
+Proof.
+  unfold connect_g. repeat case_match; simpl; try done. apply add_edges_shape.
+Qed.
+Lemma connect_g_inputs c us vs : inputs (connect_g c us vs).1 = inputs c.
+Proof. apply same_shape_inputs, connect_g_shape. Qed.
+Lemma connect_g_outputs c us vs : outputs (connect_g c us vs).1 = outputs c.
+Proof. apply same_shape_outputs, connect_g_shape. Qed.
+Lemma connect_g_dom c us vs : dom (connect_g c us vs).1 = dom c.
+Proof. apply same_shape_dom, connect_g_shape. Qed.
+
+(* the connection fold of add_subcircuit_gen *)
+Definition conn_step (SC : Circuit) (name : string) (st : circuit * outcome) (kv : string * list string)
+  : circuit * outcome :=
+  match st with
+  | (g, Done) => if bool_decide (kv.1 ∈ inputs (c_g SC)) then connect_g g kv.2 [pre name kv.1]
+                 else connect_g g [pre name kv.1] kv.2
+  | _ => st end.
+
+Lemma conn_step_shape SC name st kv : same_shape (conn_step SC name st kv).1 st.1.
+Proof.
+  destruct st as [g [|e]]; simpl; [|done]. case_bool_decide; apply connect_g_shape.
+Qed.
+Lemma conn_fold_shape SC name conns st : same_shape (foldl (conn_step SC name) st conns).1 st.1.
+Proof.
+  revert st. induction conns as [|kv conns IH]; intros st; simpl; [done|].
+  eapply same_shape_trans; [apply IH|apply conn_step_shape].
+Qed.
+Lemma conn_fold_fail SC name conns g e : foldl (conn_step SC name) (g, Fail e) conns = (g, Fail e).
+Proof. induction conns as [|kv conns IH]; simpl; done. Qed.
